@@ -50,6 +50,7 @@ PROPERTY_RULES: Dict[str, List[Scoped]] = {
         _r("POLICY-FLOW", S_THL), _r("EVENT-TABLE"), _r("SOLVER-STATELESS", P_THL), _r("RECURSE-FORWARD", S_THL),
         _r("COST-TRUTH", S_THL), _r("READONLY-INPUT", S_THL), _r("ITERATOR-REUSE", S_THL), _r("MEMO-KEY", S_THL),
         _r("DERIVED-QUERIES"), _r("OPTIONAL-CHECKED", S_THL), _r("RESULT-UNCONDITIONAL", S_THL),
+        _r("ENUM-PLACEMENTS"),
     ],
     "C02": [
         _r("SENTINEL", S_SPFS, S_SUBSEQ), _r("COSTKEYS", S_SPFS), _r("PRUNE", S_SPFS), _r("EVENT-SIG", S_SPFS),
@@ -87,6 +88,7 @@ PROPERTY_RULES: Dict[str, List[Scoped]] = {
         _r("DECODE-CONTENT-FLOW"), _r("READONLY-DECODE"), _r("SOLVER-STATELESS", P_SOLVE),
         _r("MEMO-KEY"), _r("EQ-BY-FIELDS"), _r("ITERATOR-REUSE", S_COMPUTE),
         _r("BASE-EXT-SHARE"), _r("RESULT-UNCONDITIONAL"),
+        _r("ENUM-PLACEMENTS"),
     ],
     "C06": [
         _r("MODEL-TABLE"), _r("LABEL-SIBLINGS"), _r("EVENT-EXHAUSTIVE"), _r("EVENT-TABLE"), _r("CONSERVED-SIDE"),
@@ -225,10 +227,11 @@ PROPERTY_INFO: Dict[str, Dict] = {
             "bottom-up fill, one anchored leaf entry, one result entry ranked by cost() (TRAVERSAL, LEAF-ANCHOR, RESULT-SCOPE)",
             "the result is a function of the arguments at call time: no memo, no module or object state, input not written, constraint parameters forwarded (SOLVER-STATELESS, MEMO-KEY, READONLY-INPUT, ITERATOR-REUSE, RECURSE-FORWARD)",
             "distance() counts edges, not branch lengths (DERIVED-QUERIES); no absent result is swallowed, no result-dependent exit skips ties (OPTIONAL-CHECKED, RESULT-UNCONDITIONAL)",
+            "for every pair of child placements the exhaustive enumerator yields exactly the parent placements the documented classification accepts, each once (ENUM-PLACEMENTS, relational model)",
         ],
         "not_decided": [
             "that a recurrence with these properties is optimal (induction over trees)",
-            "completeness / uniqueness of generate_all (combinatorial)",
+            "completeness / uniqueness of generate_all beyond its induction step (the product over the children is decided by DECODE-PRODUCT, the step by ENUM-PLACEMENTS; the induction itself is not mechanised)",
             "F-COHERENCE (placement at the LCA costed as duplication by the optimiser, speciation by the evaluator)",
         ],
     },
@@ -305,6 +308,7 @@ PROPERTY_INFO: Dict[str, Dict] = {
             "entry semantics per policy (UPDATE-PAIRING, RETENTION-GUARDS, COMBINE-PRODUCT)",
             "distinct solutions are not merged by a name-based equality (EQ-BY-FIELDS); nothing survives a call (SOLVER-STATELESS)",
             "every refinement / root order / species is enumerated whatever has been found so far, up to a strict bound (RESULT-UNCONDITIONAL); the extended variants offer every species on every path (BASE-EXT-SHARE)",
+            "the exhaustive solver's placement step is complete, sound and non-repeating (ENUM-PLACEMENTS)",
         ],
         "not_decided": [
             "equality of the returned set with the true optimal set",
